@@ -45,6 +45,8 @@ THEOREMS = [
         # decision tables of the pairing kernels extracted from the real code (harness/dt_c11.py), regenerated on every run
         "pair_table_check", "pair_code_table_eq_model", "pair_code_table_eq_skel", "pair_code_table_eq_model_on_index",
         "table_generic_1x1", "table_tlr_1x1",
+        # relabelling invariance (lean/PEval/Lemmas/ClassificationSim.lean): the tables speak about ALL inputs of their shapes
+        "pairing_relabelling_invariant", "pairing_index_form", "pair_table_rows_present", "table_pairing_is_model",
     ]
 ] + ["PEval.ClassificationDT.skel_eq_model_on_index"]
 TRUSTED = [
